@@ -1605,9 +1605,9 @@ def generate(ctx):
         ctx.run_given(strategy, body, n)
         flush()
 
-    drive("int", int_case(), ctx.n(1000, 40000))
-    drive("float", float_case(), ctx.n(600, 24000))
-    drive("history", history_case(), ctx.n(400, 16000))
+    drive("int", int_case(), ctx.n(1600, 40000))
+    drive("float", float_case(), ctx.n(900, 24000))
+    drive("history", history_case(), ctx.n(600, 16000))
 
 
 MANIFEST = {
